@@ -82,10 +82,12 @@ def save_load(project, d, tag):
 
 
 def run_c16(ctx):
+    from driver import Driver
     n = ctx.n(50, 2000)
     fps = set()
     n_eval = 0
     stages = ["fresh", "initialized", "paused", "finished", "backward"]
+    drv = Driver()
     for i in range(n):
         rng, spec, params = case_of(ctx.seed + 5, i)
         p = dict(params, maxTime=40, initState=True, initLog=True)
@@ -125,6 +127,11 @@ def run_c16(ctx):
             if bad:
                 ctx.violations.append(dict(property="C16", what="after load: " + bad, case=case))
                 continue
+            if not with_sub:
+                try:
+                    model_tie(ctx, drv, project, q, ja, case)
+                except Exception as e:
+                    ctx.infra.append("c16 model tie crashed: %r" % e)
             try:
                 m0, m1 = extract_model(project), extract_model(q)
                 s0, s1 = snapshot(project), snapshot(q)
@@ -151,6 +158,7 @@ def run_c16(ctx):
         fps.add(json.dumps([spec, p, with_sub], sort_keys=True))
         if len(ctx.samples) < 2:
             ctx.samples.append(dict(stream="c16", spec=spec, params=p, stages=stages))
+    drv.close()
     static_inspection(ctx)
     finish(ctx, n_eval, fps, "random models (plain BaseTask/BaseComponent classes, equal-but-not-identical ID strings, non-default value for every "
                            "simulation-relevant constructor parameter, 30% with a BaseSubProjectTask) saved at five stages (never simulated, "
@@ -338,3 +346,134 @@ def run_c20(ctx):
                            "BaseSubProjectTask is configured from the file (absence removal on/off), related to a parent unit of 3/6/12/24 h and placed "
                            "in a parent workflow PRE -> SUB -> POST (PRE optional) with random parent absence steps; the parent run is compared with "
                            "the model phase by phase and the WORKING entries of the sub-project task are counted; non-trivial = duration >= 1")
+
+
+# ---- tie between the Lean persistence model (Persist.lean) and the real JSON --------------------
+
+def labels_of(ix):
+    """number the ID strings of a project: label(ID) = rank among all distinct ID strings"""
+    all_ids = sorted(set([t.ID for t in ix.tasks] + [w.ID for w in ix.workers] + [f.ID for f in ix.facs] +
+                         [a.ID for a in ix.teams] + [q.ID for q in ix.wps] + [c.ID for c in ix.comps]))
+    lab = {x: i for i, x in enumerate(all_ids)}
+    ids = dict(task=[lab[t.ID] for t in ix.tasks], worker=[lab[w.ID] for w in ix.workers], fac=[lab[f.ID] for f in ix.facs],
+               team=[lab[a.ID] for a in ix.teams], wp=[lab[q.ID] for q in ix.wps], comp=[lab[c.ID] for c in ix.comps])
+    return lab, ids
+
+
+def enc_ids(ids):
+    out = []
+    for k in ("task", "worker", "fac", "team", "wp", "comp"):
+        out += [str(x) for x in ids[k]]
+    return out
+
+
+def saved_from_json(js, ix, lab, model, st):
+    """the saved (model, state) read off the JSON file by this harness (not by pDESy): resolved
+    references appear as labels, everything else as in extract_model/snapshot of the original"""
+    import real as R
+    data = js["pDESy"]
+    prod = [n for n in data if n["type"] == "BaseProduct"][0]
+    wf = [n for n in data if n["type"] == "BaseWorkflow"][0]
+    org = [n for n in data if n["type"] == "BaseOrganization"][0]
+    proj = [n for n in data if n["type"] == "BaseProject"][0]
+    L = lambda x: lab[x]  # noqa: E731
+    m = {k: model[k] for k in codec.SIZES}
+    w_id, f_id, t_id, c_id, wp_id, tm_id = ix.w_id, ix.f_id, ix.t_id, ix.c_id, ix.wp_id, ix.tm_id
+
+    def idlist(ids, idmap):
+        return None if ids is None else [idmap.get(x, R.UNKNOWN + k) for k, x in enumerate(ids)]
+    TSV = {int(k): v for k, v in R.TS_MAP.items()}
+    RSV = {int(k): v for k, v in R.RS_W_MAP.items()}
+    CSV = {int(k): v for k, v in R.CS_MAP.items()}
+    RR = {int(k): v for k, v in R.RES_RULE.items()}
+    WR = {int(k): v for k, v in R.WP_RULE.items()}
+    m["tasks"] = [dict(
+        name=ix.names[j["name"]], work=j["default_work_amount"], prog=j["default_progress"],
+        autoRate=j["work_amount_progress_of_unit_step_time"], isAuto=bool(j["auto_task"]), needFac=bool(j["need_facility"]),
+        inputs=[(L(i_), int(d)) for i_, d in j["input_task_list"]], outputs=[(L(i_), int(d)) for i_, d in j["output_task_list"]],
+        wps=[L(x) for x in j["allocated_workplace_list"]], comp=None if j["target_component"] is None else L(j["target_component"]),
+        fixW=idlist(j["fixing_allocating_worker_id_list"], w_id), fixF=idlist(j["fixing_allocating_facility_id_list"], f_id),
+        wRule=RR[j["worker_priority_rule"]], fRule=RR[j["facility_priority_rule"]], wpRule=WR[j["workplace_priority_rule"]],
+        due=j["due_time"]) for j in wf["task_list"]]
+    workers = [w for a in org["team_list"] for w in a["worker_list"]]
+    facs = [f for q in org["workplace_list"] for f in q["facility_list"]]
+    m["workers"] = [dict(team=tm_id[w["team_id"]], skills=[(ix.names[k], v) for k, v in w["workamount_skill_mean_map"].items()],
+                         facSkills=[(ix.fnames[k], v) for k, v in w["facility_skill_map"].items()], solo=bool(w["solo_working"]),
+                         cost=w["cost_per_time"], absence=list(w["absence_time_list"]),
+                         mainWp=None if w["main_workplace_id"] is None else wp_id.get(w["main_workplace_id"], R.UNKNOWN)) for w in workers]
+    m["facs"] = [dict(wp=wp_id[f["workplace_id"]], name=ix.fnames[f["name"]],
+                      skills=[(ix.names[k], v) for k, v in f["workamount_skill_mean_map"].items()], solo=bool(f["solo_working"]),
+                      cost=f["cost_per_time"], absence=list(f["absence_time_list"])) for f in facs]
+    m["teams"] = [dict(workers=[w_id[w["ID"]] for w in a["worker_list"]], targets=[L(x) for x in a["targeted_task_list"]]) for a in org["team_list"]]
+    m["wps"] = [dict(facs=[f_id[f["ID"]] for f in q["facility_list"]], targets=[L(x) for x in q["targeted_task_list"]], cap=q["max_space_size"],
+                     inputs=[L(x) for x in q["input_workplace_list"]], outputs=[L(x) for x in q["output_workplace_list"]]) for q in org["workplace_list"]]
+    m["comps"] = [dict(tasks=[L(x) for x in c["targeted_task_list"]], size=c["space_size"], parents=[L(x) for x in c["parent_component_list"]],
+                       children=[L(x) for x in c["child_component_list"]]) for c in prod["component_list"]]
+    T, C = wf["task_list"], prod["component_list"]
+    s = {}
+    s["tstate"] = [TSV[j["state"]] for j in T]
+    s["rem"] = [j["remaining_work_amount"] for j in T]
+    for k in ("est", "eft", "lst", "lft"):
+        s[k] = [j[k] for j in T]
+    s["cpl"] = wf["critical_path_length"]
+    s["allocW"] = [[L(x) for x in j["allocated_worker_list"]] for j in T]
+    s["allocF"] = [[L(x) for x in j["allocated_facility_list"]] for j in T]
+    s["wstate"] = [RSV[w["state"]] for w in workers]
+    s["wasg"] = [[L(x) for x in w["assigned_task_list"]] for w in workers]
+    s["fstate"] = [RSV[f["state"]] for f in facs]
+    s["fasg"] = [[L(x) for x in f["assigned_task_list"]] for f in facs]
+    s["cstate"] = [CSV[c["state"]] for c in C]
+    s["placed"] = [None if c["placed_workplace"] is None else L(c["placed_workplace"]) for c in C]
+    s["wpComps"] = [[L(x) for x in q["placed_component_list"]] for q in org["workplace_list"]]
+    ids = lambda rec, mp: [] if rec is None else [mp.get(x, R.UNKNOWN) for x in rec]  # noqa: E731
+    s["tState"] = [[TSV[x] for x in j["state_record_list"]] for j in T]
+    s["tRem"] = [list(j["remaining_work_amount_record_list"]) for j in T]
+    s["tAllocW"] = [[ids(r, w_id) for r in j["allocated_worker_id_record"]] for j in T]
+    s["tAllocF"] = [[ids(r, f_id) for r in j["allocated_facility_id_record"]] for j in T]
+    s["wState"] = [[RSV[x] for x in w["state_record_list"]] for w in workers]
+    s["wCost"] = [list(w["cost_list"]) for w in workers]
+    s["wAsg"] = [[ids(r, t_id) for r in w["assigned_task_id_record"]] for w in workers]
+    s["fState"] = [[RSV[x] for x in f["state_record_list"]] for f in facs]
+    s["fCost"] = [list(f["cost_list"]) for f in facs]
+    s["fAsg"] = [[ids(r, t_id) for r in f["assigned_task_id_record"]] for f in facs]
+    s["teamCost"] = [list(a["cost_list"]) for a in org["team_list"]]
+    s["wpCost"] = [list(q["cost_list"]) for q in org["workplace_list"]]
+    s["wpPlaced"] = [[ids(r, c_id) for r in q["placed_component_id_record"]] for q in org["workplace_list"]]
+    s["orgCost"] = list(org["cost_list"])
+    s["projCost"] = list(proj["cost_list"])
+    s["cState"] = [[CSV[x] for x in c["state_record_list"]] for c in C]
+    s["cPlaced"] = [[None if r is None else wp_id.get(r, R.UNKNOWN) for r in c["placed_workplace_id_record"]] for c in C]
+    s["time"] = proj["time"]
+    s["status"] = {0: 0, 1: 1, -1: 2}[proj["status"]]
+    s["mode"] = {0: 0, 1: 1, -1: 2}[proj["simulation_mode"]]
+    s["absence"] = list(proj["absence_time_list"])
+    s["autoFlag"] = bool(proj["perform_auto_task_while_absence_time"])
+    return m, s
+
+
+def model_tie(ctx, drv, project, q, ja, case):
+    """EXP: model export of the original == the real file; IMP: model import of the real file == the project pDESy loaded"""
+    ix = Index(project)
+    model, st = extract_model(project, ix), snapshot(project, ix)
+    lab, ids = labels_of(ix)
+    try:
+        sm, ss = saved_from_json(ja, ix, lab, model, st)
+    except Exception as e:
+        ctx.footprint_disagreements.append(dict(case=case, phase="persist:file", detail="the saved file cannot be read back by the harness: %r" % e))
+        return
+    saved_toks = codec.enc_model(sm) + codec.enc_state(sm, ss)
+    drv.ask(["M"] + codec.enc_model(model))
+    ans = drv.ask(["EXP"] + enc_ids(ids) + codec.enc_state(model, st))
+    cell = ctx.matrix.setdefault("persist:export", dict(executions=0, disagreements=0))
+    cell["executions"] += 1
+    if ans != " ".join(saved_toks):
+        cell["disagreements"] += 1
+        ctx.footprint_disagreements.append(dict(case=case, phase="persist:export", detail="model export differs from the real file"))
+    ans = drv.ask(["IMP"] + codec.enc_model(sm) + enc_ids(ids) + codec.enc_state(sm, ss))
+    ixq = Index(q)
+    mq, sq = extract_model(q, ixq), snapshot(q, ixq)
+    cell = ctx.matrix.setdefault("persist:import", dict(executions=0, disagreements=0))
+    cell["executions"] += 1
+    if ans != " ".join(codec.enc_model(mq) + codec.enc_state(mq, sq)):
+        cell["disagreements"] += 1
+        ctx.footprint_disagreements.append(dict(case=case, phase="persist:import", detail="model import differs from what read_simple_json built"))
